@@ -203,7 +203,9 @@ def backend_call(name, params, fb, xbits, as_array, cplx=False):
 
     f = flt.FMT[fb]
     kw = {}
-    if params["flush"] != "unspecified":
+    if params["flush"] == "sentinel":
+        kw["flush_subnormals"] = utils.UNSPECIFIED  # the package's own "not specified" value passed explicitly (callers forward it)
+    elif params["flush"] != "unspecified":
         kw["flush_subnormals"] = params["flush"]
     if params["extra_prec"]:
         kw["extra_prec"] = params["extra_prec"]
@@ -312,7 +314,7 @@ def backend_cases(draw):
     f = flt.FMT[fb]
     name = draw(st.sampled_from(FUNCS))
     params = {
-        "flush": draw(st.sampled_from(["unspecified", False, True])),
+        "flush": draw(st.sampled_from(["unspecified", "sentinel", False, True])),
         "extra_prec": draw(st.sampled_from([0, 0, 1, 20])),
         "mult": draw(st.sampled_from([0, 0, 1, 20])),
     }
